@@ -555,6 +555,20 @@ structure MergeTy where
   matching : Bool
   attrsKnown : Bool
 
+/-- the `switch` of the `Type` callback's loop body: what one (unmarked) argument adds to `attrs` -/
+def mergeTypeStep (st : MergeTy) (ty : Ty) (arg : Value) : Res MergeTy :=
+  match ty with
+  | .object ns ts _ =>
+    if !arg.isNull then .ok { st with attrs := amInsertAll ns ts st.attrs } else .ok st
+  | .map ety =>
+    if arg.isNull then .ok st
+    else if arg.isKnown then
+      (match elemKeys arg with
+       | .ok ks => .ok { st with attrs := amInsertAll ks (ks.map fun _ => ety) st.attrs }
+       | r => Res.cast r)
+    else .ok { st with attrsKnown := false }
+  | _ => .ok st
+
 /-- the argument loop of the `Type` callback; `.ok none` = `return cty.DynamicPseudoType, nil` -/
 def mergeTypeLoop : List Value → Nat → MergeTy → Res (Option MergeTy)
   | [], _, st => .ok (some st)
@@ -564,19 +578,7 @@ def mergeTypeLoop : List Value → Nat → MergeTy → Res (Option MergeTy)
     else if !isMapTy ty && !isObjectTy ty then .err "arguments must be maps or objects"
     else
       let arg := arg0.unmark
-      let step : Res MergeTy :=
-        match ty with
-        | .object ns ts _ =>
-          if !arg.isNull then .ok { st with attrs := amInsertAll ns ts st.attrs } else .ok st
-        | .map ety =>
-          if arg.isNull then .ok st
-          else if arg.isKnown then
-            (match elemKeys arg with
-             | .ok ks => .ok { st with attrs := amInsertAll ks (ks.map fun _ => ety) st.attrs }
-             | r => Res.cast r)
-          else .ok { st with attrsKnown := false }
-        | _ => .ok st
-      match step with
+      match mergeTypeStep st ty arg with
       | .ok st =>
         if i == 0 then mergeTypeLoop rest (i + 1) { st with first := arg.ty }
         else mergeTypeLoop rest (i + 1) { st with matching := st.matching && ty.equals st.first }
